@@ -49,9 +49,10 @@ def collect():
         with open(meta) as fhnd:
             info = json.load(fhnd)
         sid = os.path.basename(os.path.dirname(meta))
-        if info.get("status") in ("obsolete", "out-of-scope"):
+        if info.get("status") in ("obsolete", "out-of-scope", "not-caught"):
             # obsolete: made harmless by a later repair of /repo;
             # out-of-scope: breaks something no claimed property states
+            # not-caught: a recorded miss (reason in its status_note)
             # (each has a status_note; DESIGN.md section 11 lists them)
             continue
         items.append((sid, info.get("check_property") or info["property"],
